@@ -99,7 +99,11 @@ func callsDesc(cs []Call) string {
 		case "pipe":
 			d = append(d, fmt.Sprintf("pipe(%s->%s%s)", cl.Pod, cl.Node, groupsDesc(cl.Groups)))
 		case "evict":
-			d = append(d, fmt.Sprintf("evict(%s,%s)", cl.Pod, cl.Action))
+			if len(cl.Replaced) > 0 {
+				d = append(d, fmt.Sprintf("evict(%s,%s;sim-replaced:%s)", cl.Pod, cl.Action, strings.Join(cl.Replaced, "+")))
+			} else {
+				d = append(d, fmt.Sprintf("evict(%s,%s)", cl.Pod, cl.Action))
+			}
 		}
 	}
 	return strings.Join(d, " ")
